@@ -44,12 +44,14 @@ PROPS = {
         floor={'quick': 500, 'thorough': 1000},
     ),
     'C06': dict(
-        runs=[dict(src='c06_seek_partition.c'),
+        runs=[dict(src='c06_seek_partition.c'), dict(src='c06_big_files.c'),
               dict(src='c06_seek_partition.c', variant='vg', tool='memcheck', args_quick=['--stride', '12'], args_thorough=['--stride', '24'])],
         level='exploration',
         rule=('case = one walk on one handle of a generated file (container, encoding, channels, walk seed): either a pure partition walk (reads only, '
               'random sizes/types/variants to EOF) or a seek+read walk (400 steps quick / 5000 thorough). Every read is compared with the per-type sequential '
-              'reference at the modelled position; every seek must return the target or -1 with an error; SEEK_CUR must equal the modelled position. '
+              'reference at the modelled position; every seek must return the target or -1 with an error; SEEK_CUR must equal the modelled position; the four per-type references must agree with each other. '
+              'Second monitor (c06_big_files): files grown past 2 GiB / 4 GiB through the real write calls (sparse store, see C04): 400 / 3000 seeks with all six whence forms to positions in and around the '
+              'islands of known audio at file offsets 0, 2^31, 2^32 and the end, each followed by a 16-frame read. '
               'distinct = hash(format, ch, walk index, PRNG state)'),
         assumptions=COMMON_ASSUME + ['the sequential reference is one sf_readf call per type on a fresh handle',
                                      'a codec may refuse to seek (-1 with error): then only position coherence is asserted'],
